@@ -390,3 +390,145 @@ func prefixWindowRule(p *Program, r *Report, rule string) {
 		r.Note("%s: no comparison of an input window with a network prefix found below DecodeAddress", rule)
 	}
 }
+
+// ownPrefixRule: whether DecodeAddress decodes its input as it stands (instead of prepending the network's prefix) is
+// decided by comparing the input with the two prefixes of the network it was asked about, and by nothing else: every
+// condition on the way to the "prepend" decision reads only the input, those prefixes, and the results of
+// strings.EqualFold / HasPrefix / IndexByte on them (through in-repo helpers too).  A registry lookup ("is this the
+// prefix of any known network?") would let an address of another network through under its own, valid, checksum.
+func ownPrefixRule(p *Program, r *Report, rule string) {
+	da := p.Func("", "DecodeAddress")
+	if da == nil {
+		r.Unresolved(rule, "DecodeAddress")
+		return
+	}
+	allowedCall := func(name string) bool {
+		switch name {
+		case "strings.EqualFold", "strings.HasPrefix", "strings.IndexByte", "strings.Index", "strings.LastIndexByte":
+			return true
+		}
+		return false
+	}
+	var foreignIn func(fn *ssa.Function, depth int) []string
+	foreignIn = func(fn *ssa.Function, depth int) []string {
+		var out []string
+		if depth > 3 {
+			return []string{"helper nesting too deep in " + FnName(fn)}
+		}
+		for _, b := range fn.Blocks {
+			for _, in := range b.Instrs {
+				c, ok := in.(*ssa.Call)
+				if !ok {
+					continue
+				}
+				if _, isB := c.Call.Value.(*ssa.Builtin); isB {
+					continue
+				}
+				cal := c.Call.StaticCallee()
+				name := calleeName(&c.Call)
+				if allowedCall(name) {
+					continue
+				}
+				if cal != nil && p.InRepo(cal) && len(cal.Blocks) > 0 {
+					out = append(out, foreignIn(cal, depth+1)...)
+					continue
+				}
+				out = append(out, "call "+name)
+			}
+		}
+		return out
+	}
+	n := 0
+	for _, b := range da.Blocks {
+		for _, in := range b.Instrs {
+			bo, ok := in.(*ssa.BinOp)
+			if !ok || bo.Op != token.ADD || !isStringType(bo.Type()) {
+				continue
+			}
+			// prefix + ":" + folded input: the outer concatenation whose right operand is a call on the input
+			if _, isCall := bo.Y.(*ssa.Call); !isCall {
+				continue
+			}
+			n++
+			var foreign []string
+			// a condition that is a merged boolean (a flag computed on several paths, as after a helper was expanded)
+			// also depends on what decided which path was taken
+			var condVals []ssa.Value
+			seenPhi := map[*ssa.Phi]bool{}
+			var addCond func(v ssa.Value, depth int)
+			addCond = func(v ssa.Value, depth int) {
+				condVals = append(condVals, v)
+				if depth > 4 {
+					return
+				}
+				var phis []*ssa.Phi
+				var find func(x ssa.Value, d int)
+				find = func(x ssa.Value, d int) {
+					if d > 6 {
+						return
+					}
+					switch y := x.(type) {
+					case *ssa.Phi:
+						phis = append(phis, y)
+					case *ssa.BinOp:
+						find(y.X, d+1)
+						find(y.Y, d+1)
+					case *ssa.UnOp:
+						find(y.X, d+1)
+					}
+				}
+				find(v, 0)
+				for _, ph := range phis {
+					if seenPhi[ph] {
+						continue
+					}
+					seenPhi[ph] = true
+					for i, e := range ph.Edges {
+						addCond(e, depth+1)
+						for _, pc := range MustCondsAtBlock(da, ph.Block().Preds[i]) {
+							addCond(pc.V, depth+1)
+						}
+					}
+				}
+			}
+			for _, cd := range MustCondsAtBlock(da, b) {
+				addCond(cd.V, 0)
+			}
+			for _, cv := range condVals {
+				for _, leaf := range condLeaves(cv) {
+					if !strings.HasPrefix(leaf, "call ") {
+						continue
+					}
+					name := strings.TrimPrefix(leaf, "call ")
+					if i := strings.Index(name, "#"); i >= 0 {
+						name = name[:i]
+					}
+					if allowedCall(name) {
+						continue
+					}
+					// an in-repo helper: look inside
+					found := false
+					for _, fn := range p.Funcs {
+						if fn.String() == name {
+							found = true
+							foreign = append(foreign, foreignIn(fn, 0)...)
+						}
+					}
+					if !found && !strings.Contains(name, "checkDecodeCashAddress") && !strings.Contains(name, "DecodeCashAddress") {
+						foreign = append(foreign, leaf)
+					}
+				}
+			}
+			sort.Strings(foreign)
+			foreign = dedup(foreign)
+			how := "the decision reads the input and the network's own prefixes only"
+			if len(foreign) > 0 {
+				how = "the decision also depends on " + strings.Join(foreign, ", ")
+			}
+			r.Add(rule, FnName(da), "the prefix is prepended unless the input starts with one of this network's own prefixes", bo.Pos(), len(foreign) == 0, how)
+		}
+	}
+	if n == 0 {
+		r.Unresolved(rule, "prefix + ':' + folded input in DecodeAddress")
+	}
+}
